@@ -47,7 +47,7 @@ CONSTANTS R,          \* number of runtimes
           EMIT
 
 OPS == {"sort", "cdrsort", "slicepush", "append0", "restsort", "macroarg", "define", "read", "reload",
-        "slicefull", "slicetail", "slicecdr", "quotecmp",
+        "slicefull", "slicetail", "slicecdr", "slicelist", "quotecmp",
         \* the literal crossing a function-application boundary before it reaches the in-place sort
         "applyrest", "applycdr", "applyreq", "funcallopt", "mapsort", "foldsort"}
 LIT == <<3, 1, 2>>
@@ -71,6 +71,7 @@ Result(op, lit, counter) ==
     [] op = "slicefull" -> Sorted(lit)
     [] op = "slicetail" -> Sorted(TailOf(lit))
     [] op = "slicecdr" -> Sorted(TailOf(lit))
+    [] op = "slicelist" -> Sorted(lit)           \* (stable-sort < (slice 'list (lit) 0 3)): the whole range as a list
     \* a literal of doubly quoted lists sorted with a comparator that sorts (its private copies of) the elements in
     \* place; the result is the first element's list read back afterwards
     [] op = "quotecmp" -> lit
@@ -96,7 +97,7 @@ Step(r) == \E op \in OPS :
   LET me == [rt[r] EXCEPT !.script = Append(@, op)] IN
   /\ rt[r].pc <= LEN
   /\ LET res == Result(op, prog, me.counter)
-         writes == ~COW /\ op \in {"sort", "append0", "slicefull", "quotecmp", "macroarg", "applyrest", "funcallopt", "mapsort", "foldsort"}        \* in-place sort through the literal
+         writes == ~COW /\ op \in {"sort", "append0", "slicefull", "slicelist", "quotecmp", "macroarg", "applyrest", "funcallopt", "mapsort", "foldsort"}        \* in-place sort through the literal
          prog2 == IF writes THEN Sorted(prog) ELSE prog IN
      /\ prog' = prog2
      /\ hdrs' = hdrs \cup {[rt |-> r, sealed |-> (COW \/ op \notin {"slicepush", "append0", "slicefull", "slicetail", "slicecdr"})]}
